@@ -1040,6 +1040,8 @@ def splice_helpers(prog: Program, paths: list[Path], _depth: int = 0, cls=None, 
                 tm2 = T.rewrite(tm, lambda y: r if y == x else None)
                 if tm2 is not tm and r[0] == "const":
                     # the helper answered with a constant: conditional expressions on it are decided
+                    # ... and so are identity tests against another constant (`_helper(x) is None` where it answered None / something else)
+                    tm2 = T.rewrite(tm2, lambda y: ("const", (y[2][1] is y[3][1]) if y[1] == "is" else (y[2][1] is not y[3][1])) if (y[0] == "cmp" and y[1] in ("is", "isnot") and y[2][0] == "const" and y[3][0] == "const" and (y[2][1] is None or y[3][1] is None)) else None)
                     tm2 = T.rewrite(tm2, lambda y: (y[2] if y[1][1] else y[3]) if (y[0] == "ifexp" and y[1][0] == "const") else None)
                 if tm2 is not tm and r[0] in ("tuple", "list"):
                     # `a, b = _helper(x)`: the components of the returned display
